@@ -102,6 +102,21 @@ TIntact ==
     /\ More /\ Ev.k = "x-intact" /\ pend = <<>> /\ Ev.ok
     /\ l' = l + 1 /\ UNCHANGED <<vars, pend>>
 
+\* C11: the client's TLS stack completed the handshake / gave up
+TTls ==
+    /\ More /\ Ev.k = "tls" /\ pend = <<>>
+    /\ TLSDone
+    /\ l' = l + 1 /\ UNCHANGED pend
+
+TTlsFail ==
+    /\ More /\ Ev.k = "tlsfail" /\ ssl = "tlsp"
+    /\ l' = l + 1 /\ UNCHANGED <<vars, pend>>
+
+\* C11: a raw write of the server after 'S': it must consist of TLS records
+TWire ==
+    /\ More /\ Ev.k = "wire" /\ ssl \in {"tlsp", "tls"} /\ Ev.rec
+    /\ l' = l + 1 /\ UNCHANGED <<vars, pend>>
+
 \* a silent server step
 TServer ==
     /\ pend = <<>>
@@ -150,7 +165,7 @@ TFaultedClose ==
     /\ l' = l + 1
     /\ UNCHANGED <<cfg, ssl, mwi, cparams, inq, eof, faulted, stmts, portals, skip, hq, h, pend>>
 
-TNext == TReset \/ TIntact \/ TSegRun \/ TPreamble \/ TGlobal \/ TParseParams \/ TApi \/ TSend \/ TEof \/ TLate \/ TServer \/ TMatch \/ TIdle
+TNext == TReset \/ TTls \/ TTlsFail \/ TWire \/ TIntact \/ TSegRun \/ TPreamble \/ TGlobal \/ TParseParams \/ TApi \/ TSend \/ TEof \/ TLate \/ TServer \/ TMatch \/ TIdle
          \/ TFault \/ TFaultedCb \/ TFaultedClose
 
 TSpec == TInit /\ [][TNext]_tvars
